@@ -156,6 +156,134 @@ def teardown_probe(env):
                     env.count("round_trips_from_thread_local_destructor", 1)
 
 
+SETTER_PROBE = """// generated by props/c18.py: does calling a (new) setter-shaped public function change what later calls return?
+use hpke::{aead::{AeadTag, AesGcm128}, kdf::HkdfSha256, kem::{DhP256HkdfSha256, X25519HkdfSha256}, Deserializable, Kem, OpModeR, OpModeS, PskBundle, Serializable};
+use hpke::rand_core::{CryptoRng, RngCore};
+struct Z(u8);
+impl RngCore for Z {
+    fn next_u32(&mut self) -> u32 { self.0 = self.0.wrapping_mul(13).wrapping_add(7); self.0 as u32 }
+    fn next_u64(&mut self) -> u64 { self.next_u32() as u64 }
+    fn fill_bytes(&mut self, d: &mut [u8]) { for b in d.iter_mut() { *b = self.next_u32() as u8 } }
+}
+impl CryptoRng for Z {}
+fn hex(b: &[u8]) -> String { b.iter().map(|x| format!("{:02x}", x)).collect() }
+fn session<K: Kem>(out: &mut String, tag: &str) {
+    let (skr, pkr) = K::derive_keypair(b"recipient keying material 0123456789abcdef0123456789abcdef0123456789");
+    let (sks, pks) = K::derive_keypair(b"sender keying material 0123456789abcdef0123456789abcdef0123456789abc");
+    out.push_str(&format!("{} pk {}\n", tag, hex(&pkr.to_bytes())));
+    for (psk, id) in [(&b""[..], &b""[..]), (&b"k"[..], &b"i"[..]), (&b"0123456789abcdef"[..], &b"id3"[..]), (&[7u8; 40][..], &b"identity"[..]), (&b"lone"[..], &b""[..]), (&b""[..], &b"lone"[..])] {
+        let b = PskBundle::new(psk, id);
+        out.push_str(&format!("{} bundle {}/{} -> {:?}\n", tag, psk.len(), id.len(), b.as_ref().map(|_| ()).map_err(|e| format!("{:?}", e))));
+        let Ok(b) = b else { continue };
+        for mode in 0..4 {
+            let (ms, mr) = match mode {
+                0 => (OpModeS::Base, OpModeR::Base),
+                1 => (OpModeS::Psk(b), OpModeR::Psk(b)),
+                2 => (OpModeS::Auth((sks.clone(), pks.clone())), OpModeR::Auth(pks.clone())),
+                _ => (OpModeS::AuthPsk((sks.clone(), pks.clone()), b), OpModeR::AuthPsk(pks.clone(), b)),
+            };
+            let s = hpke::setup_sender::<AesGcm128, HkdfSha256, K, _>(&ms, &pkr, b"info", &mut Z(mode as u8));
+            let Ok((enc, mut cs)) = s else { out.push_str(&format!("{} mode {} setup_s {:?}\n", tag, mode, s.map(|_| ()).map_err(|e| format!("{:?}", e)))); continue };
+            let mut m = *b"a message to seal";
+            let t = cs.seal_in_place_detached(&mut m, b"aad").map(|t| hex(&t.to_bytes()));
+            let mut e = [0u8; 24];
+            let ex = cs.export(b"ctx", &mut e).map(|_| hex(&e));
+            out.push_str(&format!("{} mode {} enc {} ct {} tag {:?} export {:?}\n", tag, mode, hex(&enc.to_bytes()), hex(&m), t, ex));
+            match hpke::setup_receiver::<AesGcm128, HkdfSha256, K>(&mr, &skr, &enc, b"info") {
+                Ok(mut cr) => {
+                    if let Ok(t) = t {
+                        let tag_ = AeadTag::<AesGcm128>::from_bytes(&(0..t.len() / 2).map(|i| u8::from_str_radix(&t[2 * i..2 * i + 2], 16).unwrap()).collect::<Vec<u8>>()).unwrap();
+                        let r = cr.open_in_place_detached(&mut m, b"aad", &tag_);
+                        out.push_str(&format!("{} mode {} open {:?} {}\n", tag, mode, r, hex(&m)));
+                    }
+                }
+                Err(e) => out.push_str(&format!("{} mode {} setup_r {:?}\n", tag, mode, e)),
+            }
+        }
+    }
+}
+fn transcript() -> String {
+    let mut out = String::new();
+    session::<X25519HkdfSha256>(&mut out, "x25519");
+    session::<DhP256HkdfSha256>(&mut out, "p256");
+    out
+}
+fn main() {
+    let which: usize = std::env::args().nth(1).unwrap().parse().unwrap();
+    let before = transcript();
+    match which {
+@CALLS@
+        _ => { println!("NO_SUCH_CALL"); return; }
+    }
+    let after = transcript();
+    if before == after {
+        println!("SAME {} lines", before.lines().count());
+    } else {
+        let d = before.lines().zip(after.lines()).find(|(a, b)| a != b);
+        println!("DIFFERS {:?}", d);
+    }
+}
+"""
+
+
+def new_api_probe(env):
+    """Functions that were not part of the public surface the workloads were written for (api_surface.json) cannot be
+    driven by them.  The one shape that can be driven without knowing what it means is a setter: a public function
+    without `self` whose parameters are integers or booleans.  A fixed transcript (bundles, setups in all modes,
+    seal/open/export on two KEMs) is produced before and after calling it with a few values, one process per call:
+    'does not depend on earlier library calls'."""
+    import json
+    from lib import apisurface
+    d, why = apisurface.rustdoc_json()
+    if d is None:
+        env.note("public surface not inspected: %s" % why)
+        return
+    with open(os.path.join(fw.VERIF, "api_surface.json")) as fh:
+        known = set(json.load(fh)["facts"])
+    now = apisurface.surface(d)
+    added = [f for f in now if f not in known]
+    env.extra_cov["public_surface"] = {"items": len(now), "not_in_recorded_surface": added[:40], "missing_from_recorded_surface": [f for f in sorted(known) if f not in set(now)][:40]}
+    cands = {f: v for f, v in apisurface.plain_callables(d).items() if f in added}
+    if not cands:
+        return
+    values = {"bool": ["true", "false"]}
+    calls, labels = [], []
+    for f, (owner, name, tys) in sorted(cands.items()):
+        for k in range(4):
+            args = []
+            for t in tys:
+                vs = values.get(t) or ["0", "1", "32", "%s::MAX" % t]
+                args.append("%s as %s" % (vs[k % len(vs)], t) if t != "bool" else vs[k % len(vs)])
+            labels.append((f, owner, name, args))
+    # the owner's public path is not in the JSON in usable form (private modules, re-exports): try the usual places
+    for prefix in ("hpke::", "hpke::aead::", "hpke::kem::", "hpke::kdf::"):
+        body = "\n".join("        %d => { let _ = %s%s%s(%s); }" % (i, prefix, (o + "::") if o else "", n, ", ".join(a)) for i, (f, o, n, a) in enumerate(labels))
+        cdir = os.path.join(env.work, "setterprobe")
+        os.makedirs(os.path.join(cdir, "src"), exist_ok=True)
+        with open(os.path.join(cdir, "Cargo.toml.in"), "w") as fh:
+            fh.write('[package]\nname = "hpke-verif-probe-setter"\nversion = "0.0.0"\nedition = "2021"\npublish = false\n\n[dependencies]\n'
+                     'hpke = { path = "@REPO@", default-features = false, features = ["alloc", "x25519", "p256"] }\n\n[workspace]\n')
+        with open(os.path.join(cdir, "src", "main.rs"), "w") as fh:
+            fh.write(SETTER_PROBE.replace("@CALLS@", body))
+        fw.prepare_crate(cdir)
+        tdir = os.path.join(fw.VERIF, "target", "probe")
+        p = subprocess.run(["cargo", "build", "--offline", "--target-dir", tdir], cwd=cdir, env=dict(fw.BASE_ENV), stdout=subprocess.PIPE, stderr=subprocess.STDOUT, text=True, timeout=1800)
+        if p.returncode != 0:
+            continue
+        binary = os.path.join(tdir, "debug", "hpke-verif-probe-setter")
+        for i, (f, o, n, a) in enumerate(labels):
+            r = subprocess.run([binary, str(i)], stdout=subprocess.PIPE, stderr=subprocess.STDOUT, text=True, timeout=600)
+            env.count("evaluations", 1)
+            if r.stdout.startswith("DIFFERS") or r.returncode != 0:
+                env.violation("C18:depends_on_earlier_call:%s" % n, "after calling %s%s%s(%s) the same calls with the same arguments give different results: %s" % (
+                    prefix, (o + "::") if o else "", n, ", ".join(a), r.stdout[:400]), workload="placement")
+            elif r.stdout.startswith("SAME"):
+                env.seen(("setter-probe", f, i))
+        env.extra_cov["public_surface"]["setter_shaped_additions_driven"] = sorted(cands)
+        return
+    env.note("new setter-shaped functions %s could not be called from a generated program (no public path found)" % sorted(cands))
+
+
 def _short(d):
     return {k: (v if len(str(v)) < 40 else str(v)[:40] + "…") for k, v in d.items()}
 
@@ -491,6 +619,7 @@ def run(env):
     thread_creation_probe(env)
     teardown_probe(env)
     reentrant_rng_probe(env)
+    new_api_probe(env)
     stext = build_storm(env, env.pick(1, 6)).text()
     for b in ("checked", "checked-std", "checked-noalloc"):
         rs = env.drive("storm", stext, build=b)
